@@ -310,9 +310,9 @@ func (r Stack) Swap(i, j int) {
 }
 
 func (r *stack) swap(i, j int) {
-	if ok := i <= r.ulen(); !ok {
+	if ok := 0 <= i && i < r.ulen(); !ok {
 		return
-	} else if ok = j <= r.ulen(); !ok {
+	} else if ok = 0 <= j && j < r.ulen(); !ok {
 		return
 	}
 
